@@ -232,7 +232,7 @@ class OnClose(ProducerContract):
         return ['code', 'nocode']
 
     def site_keys(self, sites):
-        return [0 if src.startswith('events.Closed(') else 1 if src.startswith('events.Closing(') else k for k, src, stmt in sites]
+        return [0 if src.startswith('events.Closed(') else 1 if src.startswith('events.Closing(') else k for k, src, stmt, handler in sites]
 
     def setup(self, ip, v):
         W = world(ip, session='some')
@@ -483,10 +483,11 @@ class WsFeed(ProducerContract):
         """the yields of feed by what they yield (the arms of the dispatch chain may come in any order)"""
         names = {'events.Rejected(': 0, 'events.Ready(': 1, 'events.Ping(': 3, 'events.Pong(': 4, 'events.Binary(': 5, 'events.Text(': 6}
         out = []
-        for k, src, stmt in sites:
+        for k, src, stmt, handler in sites:
             n = next((v for p, v in names.items() if src.startswith(p)), None)
             if n is None and src.startswith('events.ProtocolError('):
-                n = 7 if src.rstrip(') ').endswith('True') else 8
+                # by the handler it sits in, not by its `critical` argument (that argument is what the clause checks)
+                n = 7 if 'CriticalProtocolError' in handler else 8
             if n is None and src.isidentifier():
                 n = 2
             out.append(k if n is None else n)
